@@ -218,11 +218,10 @@ def static_check():
                     for b in ids:
                         fails.append("%s(%r): %s" % (ld, nm, b))
                 else:
-                    if st == "ok":
-                        fails.append("%s(%r) returned a value; the reference has no such table/keys" % (ld, nm))
-                    elif not isinstance(v, exp):
-                        fails.append("%s(%r) raised %s, expected %s" % (
-                            ld, nm, type(v).__name__, "/".join(e.__name__ for e in exp)))
+                    # the reference defines no such (entry point, table): the
+                    # property says nothing about what the loader does then
+                    # (raise, or - after an API extension - return something)
+                    pass
             if order == 0 and kind == "ok" and len(samples) < 6:
                 samples.append({"loader": ld, "name": nm, "arrays": len(exp),
                                 "lengths": [int(a.shape[0]) for a in exp]})
@@ -245,8 +244,8 @@ def check_load(w, cl, rec, op, status, val):
     w.probe("loads")
     if status == "ok":
         if kind != "ok":
-            w.violation("T1-table-values", rec, "%s(%r) returned a value; the reference has no "
-                        "such table/keys" % (op["loader"], op["name"]))
+            # no reference for this (entry point, table): outside the property
+            w.probe("value_without_reference")
             return
         m = same_arrays(val, exp)
         if m:
@@ -266,9 +265,8 @@ def check_load(w, cl, rec, op, status, val):
             inv = "T5-recovery" if rec.get("retry") else "T6-load-failed"
             w.violation(inv, rec, "%s(%r) raised %s (%s) with no fault injected into this attempt"
                         % (op["loader"], op["name"], type(val).__name__, str(val)[:120]))
-        elif not isinstance(val, exp):
-            w.violation("T1-table-values", rec, "%s(%r) raised %s, expected %s" % (
-                op["loader"], op["name"], type(val).__name__, "/".join(e.__name__ for e in exp)))
+        else:
+            w.probe("raise_without_reference")
 
 
 def peek_cache(w, cl, rec):
